@@ -497,6 +497,9 @@ def handleProfile (inp : Input) : Option String :=
 def handleAll (ws : List String) : Option String :=
   match ws with
   | "ear" :: r => parseInput r >>= handleEar
+  -- `model3d.Triangulate` (the wrapper `TriangulateFace` / `ReadOFF` call): the same contract as
+  -- `model2d.Triangulate`, for every size, start vertex and order (`M3d.C14.triangulate_any_start_any_order`)
+  | "ear3" :: r => parseInput r >>= handleEar
   | "mesh" :: r => parseInput r >>= handleMesh
   | "single" :: r => parseInput r >>= handleMesh
   | "mono" :: r => parseInput r >>= handleMono
